@@ -822,7 +822,7 @@ func childMain() {
 		}
 		c.nWrites = len(c.lightOuts)
 		c.afterSh = int(c.afterShLight.Load())
-		writesAtRet = c.nWrites
+		writesAtRet = c.nWrites - c.afterSh
 	}
 	for i := 0; i < len(c.outs); i += 200 {
 		fmt.Fprintln(w, "out "+strings.Join(c.outs[i:min(i+200, len(c.outs))], " "))
